@@ -87,6 +87,7 @@ def table_cases(draw, tier="quick", kind="pd"):
         case["int_labels"] = draw(st.booleans())
         case["target"] = draw(st.sampled_from(["none", "none", "new", "existing"]))
         case["target_index"] = draw(st.integers(0, ncols - 1))
+        case["index"] = draw(st.sampled_from(["default", "default", "reversed", "strings", "offset"]))
     else:
         case["func"] = draw(st.sampled_from(["file_compress", "file_expand"]))
         case["header"] = draw(st.booleans())
@@ -128,7 +129,9 @@ def check_pd(case, stats: Stats) -> None:
     conv = mk_converter_via(case["spec"], case.get("build", "at-once"))
     ncols = case["ncols"]
     labels = list(range(ncols)) if case["int_labels"] else [f"c{i}" for i in range(ncols)]
-    df = pd.DataFrame([list(r) for r in case["rows"]], columns=labels)
+    nrows = len(case["rows"])
+    idx = {"default": None, "reversed": list(range(nrows - 1, -1, -1)), "strings": [f"r{k}" for k in range(nrows)], "offset": [10 + 3 * k for k in range(nrows)]}[case.get("index", "default")]
+    df = pd.DataFrame([list(r) for r in case["rows"]], columns=labels, index=idx)
     before = df.copy(deep=True)
     col = labels[case["column"]]
     if case["target"] == "none":
